@@ -580,3 +580,184 @@ Proof.
   replace (c_bslash =? c_bslash) with true by reflexivity.
   rewrite H2. cbn. discriminate.
 Qed.
+
+(* ================================================================== flagged decimal directives *)
+
+Lemma all_digits_zeros' : forall j, all_digits 10 (repeat c_zero j).
+Proof. induction j; simpl; constructor; [discriminate|assumption]. Qed.
+
+Lemma value_of_zeros' : forall j, value_of 10 (repeat c_zero j) 0 = 0.
+Proof.
+  induction j as [|j IH]; [reflexivity|].
+  cbn [repeat value_of]. replace (digit_in 10 c_zero) with (Some 0) by reflexivity. exact IH.
+Qed.
+
+Lemma skip_ws_spaces : forall k r n, skip_ws (repeat c_space k ++ r) n = skip_ws r (n + k).
+Proof.
+  induction k as [|k IH]; intros r n; [simpl; f_equal; lia|].
+  cbn [repeat app skip_ws]. replace (is_space c_space) with true by reflexivity.
+  rewrite IH. f_equal. lia.
+Qed.
+
+Lemma has_hex_prefix_10 : forall r, has_hex_prefix 10 r = false.
+Proof.
+  intros [|z [|x [|h r]]]; try reflexivity. unfold has_hex_prefix.
+  replace ((10 =? 16) || (10 =? 0)) with false by reflexivity.
+  rewrite andb_false_r. reflexivity.
+Qed.
+
+Lemma scan_int_body_10 : forall k mag rest n2, stops 10 rest ->
+  scan_int_body 10 (repeat c_zero k ++ print_nat 10 false mag ++ rest) n2
+  = Some (mag, (n2 + k + length (print_nat 10 false mag))%nat).
+Proof.
+  intros k mag rest n2 Hr. unfold scan_int_body. rewrite has_hex_prefix_10.
+  replace (10 =? 0) with false by reflexivity.
+  rewrite scan_digits_app by apply all_digits_zeros'.
+  rewrite scan_digits_app by (apply print_nat_all; lia).
+  rewrite scan_digits_stop by assumption.
+  rewrite value_of_zeros', print_nat_value by lia. rewrite repeat_length.
+  destruct (0 + k + length (print_nat 10 false mag))%nat eqn:E.
+  - exfalso. apply (print_nat_nonempty 10 false mag). apply length_zero_iff_nil. lia.
+  - f_equal. f_equal. lia.
+Qed.
+
+Definition sign_text (sg : text) : Prop := sg = [] \/ sg = [c_minus] \/ sg = [c_plus].
+Definition sign_neg (sg : text) : bool := match sg with c :: _ => c =? c_minus | [] => false end.
+
+(* white space, optional sign, leading zeros, decimal digits: read by %d (any number of leading
+   zeros) or by %i (no leading zeros: they would select octal) *)
+Lemma scan_int_text_shape : forall conv k1 sg k2 mag rest,
+  conv = 100 \/ (conv = 105 /\ k2 = O) -> sign_text sg -> stops_int rest ->
+  scan_int_text conv (repeat c_space k1 ++ sg ++ repeat c_zero k2 ++ print_nat 10 false mag ++ rest)
+  = Some (sign_neg sg, mag, (k1 + length sg + k2 + length (print_nat 10 false mag))%nat).
+Proof.
+  intros conv k1 sg k2 mag rest Hconv Hsg Hr. unfold scan_int_text.
+  rewrite skip_ws_spaces.
+  (* after the spaces: a sign or a digit *)
+  destruct (print_nat_head_or_zero mag) as (d0 & t & E & Hd0).
+  assert (Hfirst : exists c r, repeat c_zero k2 ++ print_nat 10 false mag ++ rest = c :: r /\ digit_in 10 c <> None).
+  { destruct k2 as [|k2]; [rewrite E; cbn; eauto|]. cbn [repeat app]. eexists _, _. split; [reflexivity|discriminate]. }
+  destruct Hfirst as (c & r & Ec & Hc).
+  destruct (digit_not_sign 10 c Hc) as [Hm Hp]. pose proof (digit_not_space 10 c Hc) as Hs.
+  assert (Hbody : forall n2,
+    scan_int_body (if conv =? 105 then 0 else conv_base conv)
+      (repeat c_zero k2 ++ print_nat 10 false mag ++ rest) n2
+    = Some (mag, (n2 + k2 + length (print_nat 10 false mag))%nat)).
+  { intros n2. destruct Hconv as [-> | [-> ->]].
+    - replace (100 =? 105) with false by reflexivity. replace (conv_base 100) with 10 by reflexivity.
+      apply scan_int_body_10. apply stops_int_stops; [now right|assumption].
+    - replace (105 =? 105) with true by reflexivity. cbn [repeat app].
+      rewrite scan_int_body_dec by assumption. f_equal. f_equal. lia. }
+  destruct Hsg as [-> | [-> | ->]]; cbn [app length sign_neg].
+  - rewrite Ec. rewrite skip_ws_nonspace by assumption. cbn [scan_sign]. rewrite Hm, Hp.
+    rewrite <- Ec, Hbody. f_equal. f_equal. lia.
+  - rewrite skip_ws_nonspace by reflexivity. cbn [scan_sign].
+    replace (c_minus =? c_minus) with true by reflexivity.
+    rewrite Hbody. f_equal. f_equal. lia.
+  - rewrite skip_ws_nonspace by reflexivity. cbn [scan_sign].
+    replace (c_plus =? c_minus) with false by reflexivity. replace (c_plus =? c_plus) with true by reflexivity.
+    rewrite Hbody. f_equal. f_equal. lia.
+Qed.
+
+(* the text of a signed decimal directive (d, i) with any of the flags + space 0 and a width *)
+Definition in_range (long : bool) (z : Z) : Prop :=
+  if long then (- two63 <= z < two63)%Z else (- two31 <= z < two31)%Z.
+
+Lemma int_arg_signed : forall sp z, conv_signed (n_conv sp) = true -> in_range (n_long sp) z -> int_arg sp z = z.
+Proof.
+  intros sp z Hc Hz. unfold int_arg. rewrite Hc. unfold in_range in Hz. destruct (n_long sp).
+  - change two64 with (2 * two63)%Z. apply wrap_signed_id; unfold two63 in *; lia.
+  - change two32 with (2 * two31)%Z. apply wrap_signed_id; unfold two31 in *; lia.
+Qed.
+
+Lemma conv_signed_cases : forall c, conv_signed c = true -> c = 100 \/ c = 105.
+Proof.
+  intros c H. unfold conv_signed in H. apply orb_prop in H. destruct H as [H|H]; apply N.eqb_eq in H; auto.
+Qed.
+
+Lemma repeat_snoc : forall (c : byte) k, repeat c k ++ [c] = repeat c (S k).
+Proof. intros c k. induction k; simpl; [reflexivity|]. now rewrite IHk. Qed.
+
+Lemma print_int_signed_shape : forall sp z, conv_signed (n_conv sp) = true -> in_range (n_long sp) z ->
+  exists k1 sg k2,
+    print_int sp z = repeat c_space k1 ++ sg ++ repeat c_zero k2 ++ print_nat 10 false (Z.to_N (Z.abs z))
+    /\ sign_text sg /\ sign_neg sg = (z <? 0)%Z /\ (n_zero sp = false -> k2 = O).
+Proof.
+  intros sp z Hc Hz. unfold print_int. rewrite (int_arg_signed sp z Hc Hz). rewrite Hc.
+  assert (Hb : conv_base (n_conv sp) = 10 /\ (n_conv sp =? 88) = false /\ (n_conv sp =? 120) = false /\ (n_conv sp =? 111) = false).
+  { destruct (conv_signed_cases _ Hc) as [-> | ->]; repeat split; reflexivity. }
+  destruct Hb as (Hb1 & Hb2 & Hb3 & Hb4). rewrite Hb1, Hb2, Hb3, Hb4. cbn [andb].
+  replace (if n_alt sp then [] else []) with (@nil byte) by (destruct (n_alt sp); reflexivity).
+  cbn [length Nat.add app]. set (digs := print_nat 10 false (Z.to_N (Z.abs z))). unfold pad.
+  destruct (Z.ltb_spec z 0) as [Hneg|Hpos].
+  - destruct (n_zero sp).
+    + exists O, [c_minus], (n_width sp - (length [c_minus] + 0 + length digs))%nat.
+      repeat split; try reflexivity; [right; left; reflexivity | discriminate].
+    + exists (n_width sp - (length [c_minus] + 0 + length digs))%nat, [c_minus], O.
+      repeat split; try reflexivity. right; left; reflexivity.
+  - destruct (n_plus sp).
+    + destruct (n_zero sp).
+      * exists O, [c_plus], (n_width sp - (length [c_plus] + 0 + length digs))%nat.
+        repeat split; try reflexivity; [right; right; reflexivity | discriminate].
+      * exists (n_width sp - (length [c_plus] + 0 + length digs))%nat, [c_plus], O.
+        repeat split; try reflexivity. right; right; reflexivity.
+    + destruct (n_space sp).
+      * destruct (n_zero sp).
+        -- exists 1%nat, [], (n_width sp - (length [c_space] + 0 + length digs))%nat.
+           repeat split; try reflexivity; [left; reflexivity | discriminate].
+        -- exists (S (n_width sp - (length [c_space] + 0 + length digs)))%nat, [], O.
+           repeat split; try reflexivity; [|left; reflexivity].
+           rewrite <- repeat_snoc, <- app_assoc. reflexivity.
+      * destruct (n_zero sp).
+        -- exists O, [], (n_width sp - (length (@nil byte) + 0 + length digs))%nat.
+           repeat split; try reflexivity; [left; reflexivity | discriminate].
+        -- exists (n_width sp - (length (@nil byte) + 0 + length digs))%nat, [], O.
+           repeat split; try reflexivity. left; reflexivity.
+Qed.
+
+Lemma in_range_64 : forall l z, in_range l z -> (- two63 <= z < two63)%Z.
+Proof. intros [|] z H; unfold in_range, two63, two31 in *; lia. Qed.
+
+Lemma store_int_signed : forall signext ssp z,
+  conv_signed (n_conv ssp) = true -> in_range (n_long ssp) z ->
+  (n_long ssp = false -> signext = true) ->
+  store_int signext ssp (z <? 0)%Z (Z.to_N (Z.abs z)) = z.
+Proof.
+  intros signext ssp z Hc Hz Hse. pose proof (in_range_64 _ _ Hz) as H64.
+  unfold store_int. rewrite Hc. rewrite Z2N.id by lia.
+  assert (Hv : (if (z <? 0)%Z
+                then if (two63 <? Z.abs z)%Z then (- two63)%Z else (- Z.abs z)%Z
+                else if (two63 - 1 <? Z.abs z)%Z then (two63 - 1)%Z else Z.abs z) = z).
+  { destruct (Z.ltb_spec z 0).
+    - destruct (Z.ltb_spec two63 (Z.abs z)); unfold two63 in *; lia.
+    - destruct (Z.ltb_spec (two63 - 1) (Z.abs z)); unfold two63 in *; lia. }
+  rewrite Hv. unfold in_range in Hz. destruct (n_long ssp).
+  - change two64 with (2 * two63)%Z. apply wrap_signed_id; unfold two63 in *; lia.
+  - rewrite (Hse eq_refl). cbn [andb].
+    unfold wrap_signed. rewrite Z.mod_mod by (unfold two32; lia).
+    change two32 with (2 * two31)%Z. apply wrap_signed_id; unfold two31 in *; lia.
+Qed.
+
+Lemma conv_signed_is_int : forall c, conv_signed c = true -> conv_is_int c = true.
+Proof. intros c H. destruct (conv_signed_cases c H) as [-> | ->]; reflexivity. Qed.
+
+(* Int through a numeric specification: text written by %[+][ ][0][width][l]d or ...i for a value the
+   directive can represent is read back by %[l]d (or %[l]i when no zero padding was asked for) into the
+   same value, consuming exactly that text *)
+Theorem int_dec_roundtrip : forall cf sp ssp z rest,
+  conv_signed (n_conv sp) = true ->
+  (n_conv ssp = 100 \/ (n_conv ssp = 105 /\ n_zero sp = false)) ->
+  in_range (n_long sp) z -> in_range (n_long ssp) z ->
+  (n_long ssp = false -> cf_int_signext cf = true) ->
+  stops_int rest ->
+  scan_num cf ssp (print_num sp (VInt z) ++ rest) = Some (VInt z, length (print_num sp (VInt z))).
+Proof.
+  intros cf sp ssp z rest Hc Hsc Hz Hz' Hse Hr.
+  assert (Hsc' : conv_signed (n_conv ssp) = true) by (destruct Hsc as [-> | [-> _]]; reflexivity).
+  unfold print_num, scan_num. rewrite (conv_signed_is_int _ Hc), (conv_signed_is_int _ Hsc').
+  destruct (print_int_signed_shape sp z Hc Hz) as (k1 & sg & k2 & Ep & Hsg & Hneg & Hk2).
+  rewrite Ep. rewrite <- !app_assoc.
+  rewrite scan_int_text_shape; [| destruct Hsc as [-> | [-> Hz0]]; [now left | right; split; [reflexivity | now apply Hk2]] | assumption | assumption].
+  rewrite Hneg, store_int_signed by assumption.
+  f_equal. f_equal. rewrite !app_length, !repeat_length. lia.
+Qed.
